@@ -34,6 +34,7 @@ type vhSrvConn struct {
 	reads   int
 	closed  int
 	written [][]byte
+	staleWriteDeadline bool
 	srv     *Server // when set: Write checks the busy-flag protocol of the connection that owns this conn
 	idleAtWrite bool
 }
@@ -64,7 +65,13 @@ func (c *vhSrvConn) LocalAddr() net.Addr                { return nil }
 func (c *vhSrvConn) RemoteAddr() net.Addr               { return nil }
 func (c *vhSrvConn) SetDeadline(t time.Time) error      { return nil }
 func (c *vhSrvConn) SetReadDeadline(t time.Time) error  { return nil }
-func (c *vhSrvConn) SetWriteDeadline(t time.Time) error { return nil }
+func (c *vhSrvConn) SetWriteDeadline(t time.Time) error {
+	// the deadline for writing the reply must lie in the future at the moment the reply is about to be written
+	if !t.After(time.Now()) {
+		c.staleWriteDeadline = true
+	}
+	return nil
+}
 
 type vhListener struct {
 	conns  []*vhSrvConn
@@ -149,6 +156,7 @@ func VH_C17_serve() {
 	for i, c := range l.conns {
 		rejected := cfg&4 != 0 && rejects[i]
 		vndAssert(c.closed == 1, "every connection (accepted or rejected) is closed exactly once")
+		vndAssert(!c.staleWriteDeadline, "the reply's write deadline is set from the time the reply is written (a slow handler does not use it up)")
 		vndAssert(!c.idleAtWrite, "a connection is marked as being handled while its reply is written (Shutdown closes connections that are not)")
 		if rejected {
 			vndCover("rejected")
@@ -156,7 +164,7 @@ func VH_C17_serve() {
 			continue
 		}
 		accepted++
-		if hmode == 0 {
+		if hmode == 0 || hmode == 4 {
 			vndAssert(len(c.written) == 1 && len(c.written[0]) == 12 && c.written[0][1] == c.request[1], "an accepted connection's request is answered on that connection")
 		} else {
 			vndCover("handler-panicked")
